@@ -165,7 +165,7 @@ Definition hit (e : esem) (q : qsem) : bool :=
   | ETexts ts, QTexts qs => existsb (fun t => existsb (text_eqb t) qs) ts
   | ENums zs, QNums qs => existsb (fun z => existsb (Z.eqb z) qs) zs
   | ERange l r, QNums qs => existsb (fun x => (l <=? x) && (x <? r)) qs
-  | EKeywords ks, QText t => existsb (fun k => match k with [] => false | _ => substring k t end) ks
+  | EKeywords ks, QText t => existsb (fun k => match k with [] => false | _ => kw_found k t end) ks
   | _, _ => false
   end.
 
